@@ -119,6 +119,27 @@ fn msg_json(m: &SMessage) -> Value {
     json!({"kind":"msg","msg":m.to_json()})
 }
 
+/// the same value encoded into a different conforming `Writer` (the harness's recording writer):
+/// `None` when encoding panics or issues an out-of-range overwrite
+fn encode_avp_other_writer(c: &rl2tp::avp::AVP) -> Option<Vec<u8>> {
+    let mut w = crate::monitor::RecordingWriter::default();
+    guarded(|| c.write(&mut w)).ok()?;
+    if !w.out_of_range.is_empty() {
+        return None;
+    }
+    Some(w.data)
+}
+
+fn encode_msg_other_writer(m: &SMessage) -> Option<Vec<u8>> {
+    let c = bridge::message_to_crate(m)?;
+    let mut w = crate::monitor::RecordingWriter::default();
+    guarded(|| c.write(&mut w)).ok()?;
+    if !w.out_of_range.is_empty() {
+        return None;
+    }
+    Some(w.data)
+}
+
 fn encode_avp_crate(a: &SAvp) -> Option<(rl2tp::avp::AVP, Result<Vec<u8>, (String, String)>)> {
     let c = bridge::avp_to_crate(a)?;
     let r = guarded(|| {
@@ -156,6 +177,8 @@ fn check_avp(ctx: &mut Ctx, a: &SAvp) {
                     let at = b.iter().zip(s.iter()).position(|(x, y)| x != y).unwrap_or(b.len().min(s.len()));
                     let region = if at < 2 { "flags-length" } else if at < 4 { "vendor-id" } else if at < 6 { "attribute-type" } else { "payload" };
                     viol(ctx, format!("C06 avp-octets {kind} {region}"), format!("encoder emitted {}, specified {} (first difference at octet {at})", hex(&b[..b.len().min(48)]), hex(&s[..s.len().min(48)])));
+                } else if encode_avp_other_writer(&c).as_ref() != Some(s) {
+                    viol(ctx, format!("C06 avp-octets-other-writer {kind}"), "the octets are right in a VecWriter but differ (or an overwrite went out of range) when the same value is encoded into another conforming Writer".into());
                 }
                 ctx.tally("avp-encoded");
             }
@@ -278,6 +301,8 @@ fn check_control(ctx: &mut Ctx, m: &SMessage, desc: &dyn Fn() -> Value) {
                         _ => "avps",
                     };
                     viol(ctx, format!("C06 control-octets {region}"), format!("encoder emitted {}.., specified {}.. (first difference at octet {at})", hex(&b[..b.len().min(40)]), hex(&s[..s.len().min(40)])));
+                } else if s.len() < 4096 && encode_msg_other_writer(m).as_ref() != Some(s) {
+                    viol(ctx, "C06 control-octets-other-writer".into(), "the octets are right in a VecWriter but differ (or an overwrite went out of range) when the same message is encoded into another conforming Writer".into());
                 }
                 ctx.tally("control-encoded");
             }
@@ -399,6 +424,8 @@ fn check_data(ctx: &mut Ctx, m: &SMessage) {
                 if *b != sp {
                     let at = b.iter().zip(sp.iter()).position(|(x, y)| x != y).unwrap_or(b.len().min(sp.len()));
                     viol(ctx, format!("C06 data-octets {}", if at < 2 { "flags" } else { "fields" }), format!("encoder emitted {}.., specified {}.. (first difference at octet {at})", hex(&b[..b.len().min(24)]), hex(&sp[..sp.len().min(24)])));
+                } else if sp.len() < 4096 && encode_msg_other_writer(m).as_ref() != Some(&sp) {
+                    viol(ctx, "C06 data-octets-other-writer".into(), "the octets are right in a VecWriter but differ when the same message is encoded into another conforming Writer".into());
                 }
                 ctx.tally("data-encoded");
             }
